@@ -22,7 +22,9 @@ def obligations(tier, seed):
     combos = [(True, False), (True, True), (False, False), (False, True)]
     shards = []
     for k in range(n):
-        for L in ((1, 3) if tier == 'quick' else (1, 2, 3)):
+        name_k = skeletons.HOIST_TEMPLATES[k][0]
+        quick_lengths = (3,) if name_k.startswith('folded_') else ((1, 3) if name_k in ('import_and_literal', 'decorator_only') else ((1, 3)[(k + seed) % 2],))
+        for L in (quick_lengths if tier == 'quick' else (1, 2, 3)):
             cs = [combos[(k // 2 + seed + L) % 4]] if tier == 'quick' else combos
             for (rl, rg) in cs:
                 pre = ['k == %d' % k, 'len(A) == %d and len(B) == %d and len(C) == %d' % (L, L, L),
